@@ -3,7 +3,7 @@
 From Coq Require Import List ZArith NArith Bool Arith Lia.
 From Coq.Strings Require Import Byte.
 Import ListNotations.
-From BWLexer Require Import Utf8 Unicode Lexer LexerProofs.
+From BWLexer Require Import Utf8 Unicode Lexer LexerProofs Utf8Proofs.
 From BWLexer.Gen Require Import LexTablesGen.
 
 (* ---------------------------------------------------------------- small tools *)
@@ -262,9 +262,20 @@ Proof. eexists. split; [reflexivity|]. repeat constructor; vm_compute; congruenc
 Lemma shapes : exists c am m0 m', s_anchor = x22 :: c :: am /\ s_literalType = x22 :: m0 :: m' /\ bz c <> bz m0.
 Proof. eexists _, _, _, _. split; [reflexivity|]. split; [reflexivity|]. vm_compute. congruence. Qed.
 
-(* body of a quoted lexeme as the theorems below accept it: ASCII, no double quote, no backslash *)
-Definition plain_body (body : list byte) : Prop :=
-  Forall (fun b => (bz b < 128)%Z /\ bz b <> 34%Z /\ bz b <> 92%Z) body.
+(* body of a quoted lexeme as the theorems below accept it: any runes except the double quote and the backslash *)
+Definition plain_runes (body : list rw) : Prop := Forall (fun p => fst p <> 34%Z /\ fst p <> 92%Z) body.
+(* ... and as bytes: anything (valid UTF-8 or not) except the bytes 0x22 and 0x5C *)
+Definition plain_body (body : list byte) : Prop := Forall (fun b => bz b <> 34%Z /\ bz b <> 92%Z) body.
+
+Lemma plain_body_runes body : plain_body body -> plain_runes (decode_all body).
+Proof.
+  intro H. unfold plain_runes.
+  pose proof (decode_avoid 34%Z ltac:(lia) (length body) body (le_n _)) as A.
+  pose proof (decode_avoid 92%Z ltac:(lia) (length body) body (le_n _)) as B.
+  assert (A' : Forall (fun p : rw => fst p <> 34%Z) (decode_all body)) by (apply A; eapply Forall_impl; [|exact H]; cbn; tauto).
+  assert (B' : Forall (fun p : rw => fst p <> 92%Z) (decode_all body)) by (apply B; eapply Forall_impl; [|exact H]; cbn; tauto).
+  clear A B. induction (decode_all body) as [|p r IH]; [constructor|]. inversion A'; inversion B'; subst. constructor; auto.
+Qed.
 
 Definition type_boundary (rr : list rw) : Prop :=
   match rr with [] => True | (r, _) :: _ => letter_or_digit U r = false end.
@@ -298,14 +309,14 @@ Proof.
     destruct (IH n H ltac:(lia)) as (m & Em & Hm). rewrite Em. exists (S m). split; [reflexivity|lia].
 Qed.
 
-Lemma lit_loop_body l : forall body tl ps, plain_body body ->
-  lit_loop U l ps (ascii_runes body ++ tl) = lit_loop U l (ps + length body) tl.
+Lemma lit_loop_body l : forall body tl ps, plain_runes body ->
+  lit_loop U l ps (body ++ tl) = lit_loop U l (ps + wsum body) tl.
 Proof.
   destruct rune_consts as (Q & B & _).
-  induction body as [|a body IH]; intros tl ps Hb; cbn [ascii_runes map app length]; [now rewrite Nat.add_0_r|].
-  inversion Hb as [|? ? (R & NQ & NB) Hb']; subst. cbn [lit_loop]. rewrite Q, B.
-  destruct (Z.eqb_spec (bz a) 92); [congruence|]. destruct (Z.eqb_spec (bz a) 34); [congruence|].
-  fold (ascii_runes body). rewrite IH by assumption. f_equal. lia.
+  induction body as [|[r w] body IH]; intros tl ps Hb; cbn [app wsum]; [now rewrite Nat.add_0_r|].
+  inversion Hb as [|? ? (NQ & NB) Hb']; subst. cbn [fst] in *. cbn [lit_loop]. rewrite Q, B.
+  destruct (Z.eqb_spec r 92); [congruence|]. destruct (Z.eqb_spec r 34); [congruence|].
+  rewrite IH by assumption. f_equal. lia.
 Qed.
 
 Lemma consume_self : forall m tl ps, consume U (zs m) ps (ascii_runes m ++ tl) = (true, ps + length m, tl).
@@ -360,8 +371,8 @@ Proof.
 Qed.
 
 (* the runes of  QUOTE bodyQUOTE ^^type:v rest *)
-Definition literal_runes (body v : list byte) (rr : list rw) : list rw :=
-  ascii_runes (x22 :: body) ++ ascii_runes s_literalType ++ ascii_runes v ++ rr.
+Definition literal_runes (body : list rw) (v : list byte) (rr : list rw) : list rw :=
+  (34%Z, 1) :: body ++ ascii_runes s_literalType ++ ascii_runes v ++ rr.
 
 Lemma map_fst_ascii v : map fst (ascii_runes v) = map bz v.
 Proof. unfold ascii_runes. rewrite map_map. reflexivity. Qed.
@@ -370,52 +381,50 @@ Lemma skipn_app_exact {A} (a b : list A) : skipn (length a) (a ++ b) = b.
 Proof. induction a; cbn; auto. Qed.
 
 (* no  QUOTE @[  strictly inside:  at offsets 1..|body|+1 of  QUOTE bodyQUOTE ^^type:...  *)
-Lemma no_anchor_inside body v rr p : plain_body body -> 1 <= p <= S (length body) ->
+Lemma no_anchor_inside body v rr p : plain_runes body -> 1 <= p <= S (length body) ->
   is_prefix (zs s_anchor) (skipn p (map fst (literal_runes body v rr))) = false.
 Proof.
   intros Hb Hp. destruct shapes as (c & am & m0 & m' & Ea & Em & Hc).
-  unfold literal_runes. rewrite Ea, Em. rewrite !map_app, !map_fst_ascii.
-  destruct p as [|p]; [lia|]. cbn [map skipn app].
+  unfold literal_runes. rewrite Ea, Em. cbn [map]. rewrite !map_app, !map_fst_ascii.
+  destruct p as [|p]; [lia|]. cbn [map skipn app fst].
   assert (Hp' : p <= length body) by lia. clear Hp.
-  revert p Hp'. induction body as [|a body IH]; intros p Hp'.
+  revert p Hp'. induction body as [|[r w] body IH]; intros p Hp'.
   - cbn in Hp'. assert (p = 0) by lia. subst. cbn [map app skipn zs is_prefix].
     rewrite Z.eqb_refl. destruct (Z.eqb_spec (bz c) (bz m0)); [congruence|reflexivity].
-  - inversion Hb as [|? ? (R & NQ & NB) Hb']; subst. destruct p as [|p].
-    + cbn [map app skipn zs is_prefix]. destruct (Z.eqb_spec (bz x22) (bz a)) as [E|E]; [|reflexivity].
-      exfalso. apply NQ. rewrite <- E. reflexivity.
+  - inversion Hb as [|? ? (NQ & NB) Hb']; subst. cbn [fst] in *. destruct p as [|p].
+    + cbn [map app skipn zs is_prefix fst]. change (bz x22) with 34%Z. destruct (Z.eqb_spec 34 r) as [E|E]; [congruence|reflexivity].
     + cbn [map app skipn length] in *. apply IH; [assumption|lia].
 Qed.
 
 Lemma marker_at body v rr :
   is_prefix (zs s_literalType) (skipn (S (length body)) (map fst (literal_runes body v rr))) = true.
 Proof.
-  unfold literal_runes. rewrite !map_app, !map_fst_ascii. cbn [map skipn app].
-  replace (length body) with (length (map bz body)) by apply map_length.
+  unfold literal_runes. cbn [map]. rewrite !map_app, !map_fst_ascii. cbn [skipn].
+  replace (length body) with (length (map fst body)) by apply map_length.
   rewrite skipn_app_exact. apply is_prefix_app.
 Qed.
 
 Theorem literal_steps : forall body ty v rr l,
-  plain_body body -> In ty literal_types -> case_variant v ty -> type_boundary rr ->
+  plain_runes body -> In ty literal_types -> case_variant v ty -> type_boundary rr ->
   rest l = literal_runes body v rr ->
-  let n := S (length body) + length s_literalType + length v in
+  let n := S (wsum body) + length s_literalType + length v in
   step U SToken l = ([], Some SPredOrLit, l) /\
   step U SPredOrLit l = ([], Some SLiteral, l) /\
   step U SLiteral l = ([(ItemLiteral, start l, pos l + n)], Some SSpace, mkLx rr (pos l + n) (pos l + n) ItemLiteral).
 Proof.
   intros body ty v rr l Hb Hty Hv Hbd Hrest n.
   destruct rune_consts as (Q & B & Bi & Sl & Un).
-  assert (Hq : bz x22 = 34%Z) by reflexivity.
   split; [|split].
-  - cbn [step]. rewrite Hrest. unfold literal_runes. cbn [ascii_runes map app lex_token].
-    destruct (HU 34%Z ltac:(lia)) as (_ & Ed & _). rewrite Hq, Ed. cbn [ascii_digit between andb Z.leb].
-    rewrite Bi, Sl, Un, Q. cbn.
-    destruct l as [rs st ps lk]. cbn in *. unfold literal_runes in Hrest. cbn [ascii_runes map app] in Hrest. now rewrite Hrest.
+  - cbn [step]. rewrite Hrest. unfold literal_runes. cbn [lex_token].
+    destruct (HU 34%Z ltac:(lia)) as (_ & Ed & _). rewrite Ed. replace (ascii_digit 34%Z) with false by reflexivity. cbn [andb].
+    rewrite Bi, Sl, Un, Q. cbn [Z.eqb Pos.eqb].
+    destruct l as [rs st ps lk]. cbn in *. unfold literal_runes in Hrest. now rewrite Hrest.
   - cbn [step]. unfold lex_pred_or_lit. rewrite Hrest.
     pose proof (marker_at body v rr) as M.
     assert (Hlen : S (length body) <= length (map fst (literal_runes body v rr))).
-    { unfold literal_runes. rewrite map_length, !app_length. unfold ascii_runes. rewrite !map_length. cbn. lia. }
+    { unfold literal_runes. rewrite map_length. cbn [length]. rewrite !app_length. lia. }
     assert (ET : exists T', map fst (literal_runes body v rr) = 34%Z :: T').
-    { eexists. unfold literal_runes. cbn [ascii_runes map app]. reflexivity. }
+    { eexists. unfold literal_runes. cbn [map fst]. reflexivity. }
     destruct ET as [T' ET]. pose proof (no_anchor_inside body v rr) as NA. rewrite ET in M, Hlen, NA |- *.
     cbn [tl skipn length] in *.
     destruct (index_of_complete _ _ _ M ltac:(lia)) as (q & Eq & Hqle). rewrite Eq.
@@ -424,8 +433,8 @@ Proof.
     { destruct (Nat.ltb_spec p q); [|reflexivity]. exfalso.
       apply index_of_sound in Ep. specialize (NA (S p) Hb ltac:(lia)). cbn [skipn] in NA. rewrite NA in Ep. discriminate. }
     rewrite G. reflexivity.
-  - cbn [step]. unfold lex_literal. rewrite Hrest. unfold literal_runes. cbn [ascii_runes map app].
-    fold (ascii_runes body). rewrite lit_loop_body by assumption.
+  - cbn [step]. unfold lex_literal. rewrite Hrest. unfold literal_runes.
+    rewrite lit_loop_body by assumption.
     assert (Hcons : forall tl0 ps, lit_loop U l ps (ascii_runes s_literalType ++ tl0) =
                    literal_tail U l (ps + length s_literalType) tl0).
     { intros tl0 ps. rewrite lit_loop_quote by reflexivity. rewrite consume_self. reflexivity. }
@@ -435,15 +444,15 @@ Proof.
     destruct (lod_of_variant v ty Hlt Hv) as [L1 L2].
     destruct (take_while_lod v rr L1 Hbd) as [T1 T2]. rewrite T1, T2, L2, (mem_zs_in _ _ Hty).
     unfold emit. subst n.
-    replace (pos l + 1 + length body + length s_literalType + length v) with
-      (pos l + (S (length body) + length s_literalType + length v)) by lia. reflexivity.
+    replace (pos l + 1 + wsum body + length s_literalType + length v) with
+      (pos l + (S (wsum body) + length s_literalType + length v)) by lia. reflexivity.
 Qed.
 
 Lemma run_literal : forall body ty v rr l f,
-  plain_body body -> In ty literal_types -> case_variant v ty -> type_boundary rr ->
+  plain_runes body -> In ty literal_types -> case_variant v ty -> type_boundary rr ->
   rest l = literal_runes body v rr ->
   exists more fin, run U (S (S (S f))) SToken l =
-    ((ItemLiteral, start l, pos l + (S (length body) + length s_literalType + length v)) :: more, fin).
+    ((ItemLiteral, start l, pos l + (S (wsum body) + length s_literalType + length v)) :: more, fin).
 Proof.
   intros body ty v rr l f Hb Hty Hv Hbd Hrest.
   destruct (literal_steps body ty v rr l Hb Hty Hv Hbd Hrest) as (S1 & S2 & S3).
@@ -473,6 +482,19 @@ Proof.
   rewrite E. exists more. reflexivity.
 Qed.
 
+(* decoding of  QUOTE body marker v rest  for an arbitrary byte body *)
+Lemma decode_literal_bytes body v rb : Forall (fun b => (bz b < 128)%Z) v ->
+  decode_all (x22 :: body ++ s_literalType ++ v ++ rb) = literal_runes (decode_all body) v (decode_all rb).
+Proof.
+  intro Hv. unfold literal_runes.
+  change (x22 :: body ++ s_literalType ++ v ++ rb) with ([x22] ++ body ++ s_literalType ++ v ++ rb).
+  rewrite decode_all_ascii by (repeat constructor). cbn [ascii_runes map app]. change (bz x22) with 34%Z. f_equal.
+  destruct marker_shape as (m & Em & _). rewrite Em. cbn [app].
+  rewrite (decode_all_split (length body) body (le_n _) x22) by reflexivity. f_equal.
+  change (x22 :: m ++ v ++ rb) with ((x22 :: m) ++ v ++ rb). rewrite <- Em.
+  rewrite decode_all_ascii by (repeat constructor). f_equal. now apply decode_all_ascii.
+Qed.
+
 Theorem literal_type_case_bytes : forall U, ascii_ok U -> forall body ty v rest_bytes,
   plain_body body -> In ty literal_types -> case_variant v ty -> type_boundary U (decode_all rest_bytes) ->
   exists more,
@@ -483,20 +505,11 @@ Proof.
   assert (Hlt : lower_or_digit_word ty = true).
   { pose proof literal_types_lower_or_digit as K. rewrite forallb_forall in K. exact (K _ Hty). }
   destruct (lod_of_variant U HU v ty Hlt Hv) as [L1 _].
-  assert (Hm : Forall (fun b => (bz b < 128)%Z) s_literalType) by (repeat constructor).
-  unfold lex_with, lex_runes.
-  replace (x22 :: body ++ s_literalType ++ v ++ rb) with ((x22 :: body ++ s_literalType ++ v) ++ rb)
-    by (cbn [app]; now rewrite <- !app_assoc).
-  rewrite decode_all_ascii.
-  2:{ constructor; [reflexivity|]. apply Forall_app. split.
-      - eapply Forall_impl; [|exact Hb]. cbn. tauto.
-      - apply Forall_app. split; [exact Hm|]. eapply Forall_impl; [|exact L1]. cbn. intros a [H _]. lia. }
-  assert (Er : ascii_runes (x22 :: body ++ s_literalType ++ v) ++ decode_all rb = literal_runes body v (decode_all rb)).
-  { unfold literal_runes. change (x22 :: body ++ s_literalType ++ v) with ((x22 :: body) ++ s_literalType ++ v).
-    rewrite !ascii_runes_app, <- !app_assoc. reflexivity. }
-  rewrite Er. unfold fuel_for. set (rs := literal_runes body v (decode_all rb)).
+  unfold lex_with, lex_runes. rewrite decode_literal_bytes.
+  2:{ eapply Forall_impl; [|exact L1]. cbn. intros a [H _]. lia. }
+  unfold fuel_for. set (rs := literal_runes (decode_all body) v (decode_all rb)).
   replace (4 * length rs + 4) with (S (S (S (4 * length rs + 1)))) by lia.
-  destruct (run_literal U HU body ty v (decode_all rb) (init_lx rs) (4 * length rs + 1) Hb Hty Hv Hbd eq_refl)
-    as (more & fin & E).
-  rewrite E. exists more. reflexivity.
+  destruct (run_literal U HU (decode_all body) ty v (decode_all rb) (init_lx rs) (4 * length rs + 1)
+              (plain_body_runes body Hb) Hty Hv Hbd eq_refl) as (more & fin & E).
+  rewrite E. exists more. cbn [init_lx start pos fst]. rewrite (wsum_decode_all (length body)) by apply le_n. reflexivity.
 Qed.
